@@ -91,6 +91,15 @@ func genC08(r *h.Rng, tier string, idx int) *h.Plan {
 	if r.P(1, 3) {
 		expiringNode = r.Intn(n)
 	}
+	// sometimes one or two more nodes expire at the same instant: one read then
+	// finds several expired items at once
+	alsoExpiring := map[int]bool{}
+	if expiringNode >= 0 && r.Bool() {
+		for k := r.Range(1, 2); k > 0; k-- {
+			alsoExpiring[r.Intn(n)] = true
+		}
+	}
+	p.Cfg["battery_order"] = r.Pick([]string{"get-search-dispatch", "dispatch-search-get", "search-dispatch-get", "dispatch-get-search"})
 	for i, id := range ids {
 		var dw []string
 		switch shape {
@@ -121,8 +130,8 @@ func genC08(r *h.Rng, tier string, idx int) *h.Plan {
 		if r.P(1, 4) {
 			kind = 1
 		}
-		p.Ops = append(p.Ops, c08Node(r, id, kind, dw, i == expiringNode)...)
-		if r.P(1, 5) {
+		p.Ops = append(p.Ops, c08Node(r, id, kind, dw, i == expiringNode || alsoExpiring[i])...)
+		if r.P(1, 5) || ((i == expiringNode || alsoExpiring[i]) && r.Bool()) {
 			// a property attached to this node
 			p.Ops = append(p.Ops, h.Op{K: "setprop", Loc: "L", Id: id, S: "color", J: "red"})
 		}
@@ -140,7 +149,18 @@ func genC08(r *h.Rng, tier string, idx int) *h.Plan {
 				// the item expires while nobody looks and the location is reloaded
 				p.Ops = append(p.Ops, h.Op{K: "reload"})
 			}
-			p.Ops = append(p.Ops, h.Op{K: "getfact", Loc: "L", Id: id})
+			switch r.Intn(3) {
+			case 0:
+				p.Ops = append(p.Ops, h.Op{K: "getfact", Loc: "L", Id: id})
+			case 1:
+				// one search that meets everything that has expired
+				p.Ops = append(p.Ops, h.Op{K: "search", Loc: "L", J: map[string]interface{}{"node": "?n"}})
+			default:
+				p.Ops = append(p.Ops, h.Op{K: "event", Loc: "L", J: map[string]interface{}{"ev": id}})
+			}
+		case alsoExpiring[k]:
+			// (gone with the others, or removed like any other node before that)
+			p.Ops = append(p.Ops, h.Op{K: "remfact", Loc: "L", Id: id})
 		case r.P(1, 8):
 			p.Ops = append(p.Ops, h.Op{K: "reload"})
 			p.Ops = append(p.Ops, h.Op{K: "remfact", Loc: "L", Id: id})
